@@ -43,6 +43,17 @@ def run(tier):
         vlib.violation(PROP, {"property": PROP, "kind": "tamper", "total": r["n_wrong"], "wrong": r["wrong"][:40],
                               "how": "harness/target/debug/drive_encrypted <out.json> re-runs the whole (deterministic) sweep"})
         n_viol += r["n_wrong"]
+    n_known = 0
+    if r.get("n_empty_forgery"):
+        known = {k["matcher"]: k for k in vlib.findings_for(PROP)}
+        if "compat_empty_object_forgery" in known:
+            vlib.known(PROP, f"{known['compat_empty_object_forgery']['what']} (observed: {r['n_empty_forgery']} reads, "
+                             f"e.g. {json.dumps(r['empty_forgery'][0])[:300]})")
+            n_known = r["n_empty_forgery"]
+        else:
+            vlib.violation(PROP, {"property": PROP, "kind": "tamper", "total": r["n_empty_forgery"],
+                                  "wrong": r["empty_forgery"], "how": "drive_encrypted (empty legacy object forgery)"})
+            n_viol += r["n_empty_forgery"]
     if r["backend_problems"]:
         vlib.violation(PROP, {"property": PROP, "kind": "backend", "problems": r["backend_problems"][:20]})
         n_viol += len(r["backend_problems"])
@@ -57,7 +68,10 @@ def run(tier):
                 "history, ReadOriginalOrFail and NonceUnique in every state, every action taken at least once. R: the "
                 "classes concretised on a real EncryptedStore (8 keys: sizes 0, 7, 8, 10->21, 15, 21; single + multipart "
                 "uploads, copy, rename, one replaced commit kept by the attacker) plus EVERY byte x 8 bit flips and every "
-                "truncation of every backend object; after each, get / 6 ranged gets / get_ranges / head / list on a "
+                "truncation of every backend object, plus the compound DOWNGRADE to the legacy layout (authentication "
+                "fields and generation pointer stripped, with / without the fields that betray it; ciphertext copied "
+                "or moved to data/<key>; then size and tag list cut to n chunks, or the pair served under every other "
+                "key); after each, get / 6 ranged gets / get_ranges / head / list on a "
                 "cold, a list-first, a strict and a warm-cache instance; distinct_nontrivial = number of distinct tampered "
                 "backends",
         "samples": [{"classes": r["classes"], "backend_objects": r["backend_objects"][:6]}],
@@ -66,12 +80,16 @@ def run(tier):
         "answered_original": r["answered_original"],
         "failed_reads": r["failed"],
         "wrong_answers": r["n_wrong"],
+        "known_findings_seen": n_known,
+        "legacy_metadata_reports_not_judged": r.get("legacy_meta_reports", 0),
     }
     vlib.write_evidence(PROP, tier, "model_checking", cov, time.time() - t0, n_viol, assumptions=[
         "AES-GCM/GMAC are unforgeable (cryptographic strength is assumed, coverage of the authentication structure is checked)",
         "a whole sealed document of an earlier commit of the SAME key put back together with its surviving payload "
         "(rollback) returns that earlier commit: accepted as originally written bytes",
         "chunk size 7; compatibility and strict mode",
+        "a document stripped of every field the sealed format added is indistinguishable from genuine legacy metadata: "
+        "in compatibility mode what head / list REPORT for it (size, token) is not judged, the bytes reads return are",
     ])
     vlib.cleanup(wd)
     return n_viol
